@@ -200,10 +200,64 @@ def shards(tier):
     return 16
 
 
+def gen_raw(rng, seed):
+    """ZMQSender / ZMQReceiver used directly: a publisher in the documented blocking send() (or with long timeouts), a
+    consumer that is not a required output falls silent for good (stops reading, or is killed), another one lives on."""
+    how = rng.choice(['stall', 'kill'])
+    blocking = rng.random() < 0.7
+    P = {'id': 'P', 'role': 'raw_pub', 'config': {'outputs': ['ipc://P']}, 'start_ms': 0,
+         'raw': {'n': 10 ** 7, 'period_ms': rng.choice([0, 10, 30]), 'send_timeout_ms': None if blocking else rng.choice([100, 2000, 20000])}}
+    A = {'id': 'A', 'role': 'raw_sub', 'config': {'sources': ['ipc://P']}, 'start_ms': rng.choice([0, 50]), 'raw': {'proc_ms': rng.choice([0, 10])}}
+    B = {'id': 'B', 'role': 'raw_sub', 'config': {'sources': ['ipc://P']}, 'start_ms': rng.choice([0, 50]), 'raw': {'proc_ms': rng.choice([5, 10, 20])}}
+    scn = {'seed': seed, 'link': {'max_delay_ms': rng.choice([0, 10, 50]), 'conn_ms': [0, 30], 'sub_ms': [0, 20]}, 'until_ms': 60000,
+           'nodes': [P, A, B], 'topo': {'edges': []}, 'family': 'raw-silent', 'how': how, 'blocking': blocking, 'stop_when_all_done': False}
+    if how == 'stall':
+        A['raw'].update(stall_after=rng.randint(4, 12), stall_secs=10 ** 6)
+        scn['stop_after'] = {'node': 'A', 'evs': ['stall-begin'], 'stall-begin_ms': 5000 + 4000}
+    else:
+        scn['faults'] = [{'at_ms': rng.randint(300, 1500), 'kind': 'kill', 'node': 'A'}]
+        scn['stop_after_fault_ms'] = 5000 + 4000
+    return scn
+
+
+def judge_raw(w, scn, res):
+    from openfilter.filter_runtime import zeromq as _z
+    bad = []
+    t_sil = next((e['t'] for e in w.clog if e['ev'] == 'stall-begin' and e['node'] == 'A'), None) if scn['how'] == 'stall' else \
+        next((e['t'] for e in w.sim.log if e.get('ev') == 'kill' and e['node'] == 'A'), None)
+    if t_sil is None:
+        res.count('raw_silence_not_reached')
+        return bad
+    last_req = max((e['t'] for e in w.sim.log if e.get('ev') == 'push' and e['node'] == 'A' and e['t'] <= t_sil), default=t_sil)
+    t_forgotten = last_req + _z.ZMQ_CONN_TIMEOUT * 1_000_000
+    got = [e['t'] for e in w.clog if e['ev'] == 'process' and e['node'] == 'B' and e['t'] > t_forgotten]
+    res.count('raw_silent_consumer_cases')
+    if w.t_end - t_forgotten < 2_500_000_000:
+        res.count('raw_run_too_short')
+        return bad
+    if not got or got[0] - t_forgotten > 2_000_000_000:
+        bad.append(('sibling-starved-by-silent-consumer:raw-api', f'B received nothing within 2 s after its sibling A (not a required output, {"stopped reading" if scn["how"] == "stall" else "killed"}) had been silent for the connection timeout; publisher uses ZMQSender directly with {"the blocking send()" if scn["blocking"] else "send timeouts of %s ms" % scn["nodes"][0]["raw"]["send_timeout_ms"]} ({len(got)} frames in {(w.t_end - t_forgotten) / 1e9:.1f} s)'))
+    else:
+        res.maxi('raw_recovery_ms_after_timeout', int((got[0] - t_forgotten) / 1e6))
+        res.nontrivial(f'raw|{scn["how"]}|{scn["blocking"]}|{w.schedule_signature()}')
+    return bad
+
+
 def run_shard(ctx):
     common.quiet_logging()
     res = common.Result()
     nbase = 5 if ctx.quick else 8
+    for r_ in range(6 if ctx.quick else 60):
+        rr = ctx.rng('raw', r_)
+        rscn = gen_raw(rr, rr.randrange(1 << 30))
+        try:
+            rw_ = world.run_scenario(rscn)
+            res.evaluations += 1
+            for mech, msg in judge_raw(rw_, rscn, res):
+                res.violation(mech, f'{msg}; seed={rscn["seed"]}', rscn)
+        except Exception as e:
+            import traceback
+            res.inconclusive.append(f'raw scenario crashed the harness: {type(e).__name__}: {e} {traceback.format_exc()[-400:]}')
     for b in range(nbase):
         rng = ctx.rng('base', b)
         base = gen_base(rng, rng.randrange(1 << 30))
@@ -281,6 +335,14 @@ def conclusive(agg, tier):
 def replay(spec):
     common.quiet_logging()
     res = common.Result()
+    if spec.get('family') == 'raw-silent':
+        w = world.run_scenario(spec)
+        bad = judge_raw(w, spec, res)
+        for mech, msg in bad:
+            print('VIOLATES:', mech, '-', msg)
+        if not bad:
+            print('no violation on this tree')
+        return 1 if bad else 0
     w, bad = run_one(spec, res)
     print('family', spec['family'], 'required', spec['required'], 'fault', spec['faults'])
     for e in w.clog:
